@@ -552,6 +552,7 @@ impl KrpcSocket {
         crate::verif::InflightSnap {
             next_tid: self.inflight_requests.next_tid,
             total: self.inflight_requests.requests.len(),
+            capacity: self.inflight_requests.requests.capacity(),
             live: self
                 .inflight_requests
                 .requests
